@@ -149,7 +149,7 @@ def load_known():
     return json.load(open(KNOWN)).get("findings", [])
 
 
-def finish(prop, tier, checks, level, t0, seed, extra_cov=None, assumptions=None, not_decided=None, trusted=None, explanation=""):
+def finish(prop, tier, checks, level, t0, seed, extra_cov=None, assumptions=None, not_decided=None, trusted=None, explanation="", evidence_dir=None):
     """checks: list of Check (one per configuration). Writes evidence, prints the verdict lines,
     returns the exit code."""
     known = [k for k in load_known() if k.get("property") == prop and k.get("status") == "open"]
@@ -228,8 +228,9 @@ def finish(prop, tier, checks, level, t0, seed, extra_cov=None, assumptions=None
         "wall_s": round(time.time() - t0, 3),
         "violations": len(new),
     }
-    os.makedirs(os.path.join(VERIF, "evidence"), exist_ok=True)
-    with open(os.path.join(VERIF, "evidence", "%s.json" % prop), "w") as f:
+    evidence_dir = evidence_dir or os.path.join(VERIF, "evidence")
+    os.makedirs(evidence_dir, exist_ok=True)
+    with open(os.path.join(evidence_dir, "%s.json" % prop), "w") as f:
         json.dump(ev, f, indent=1)
     nok = len([r for r in allr if r["verdict"] == OK])
     print("%s [%s]: %d rule instances evaluated (%d ok, %d violations of which %d known, %d undecided, %d informational), %d distinct non-trivial; %.1fs" % (prop, tier, len(evaluated), nok, len(viol), len(printed_known), cov["undecided"], len(infos), len(triples), time.time() - t0))
